@@ -556,6 +556,11 @@ impl Cfg {
                 rerun = false;
             }
         }
+        // Verification hook: whatever follows the passes sees the time box as the passes left it.
+        #[cfg(circomspect_verif)]
+        let start = verif_budget::start_after(&verif_budget::DEGREE_PASSES, verif_passes, start);
+        #[cfg(circomspect_verif)]
+        let _ = start;
     }
 
     /// Propagate constant values along the CFG.
@@ -588,6 +593,11 @@ impl Cfg {
                 rerun = false;
             }
         }
+        // Verification hook: whatever follows the passes sees the time box as the passes left it.
+        #[cfg(circomspect_verif)]
+        let start = verif_budget::start_after(&verif_budget::VALUE_PASSES, verif_passes, start);
+        #[cfg(circomspect_verif)]
+        let _ = start;
     }
 
     /// Propagate variable types along the CFG.
